@@ -56,7 +56,7 @@ ASSUMPTIONS = [
 
 TIERS = {
     "quick": dict(bound=2, actx=2, rnd=[(14, 25)], reps=5, wide=None, shards=8),
-    "thorough": dict(bound=3, actx=3, rnd=[(100, 40), (100, 40), (40, 100)], reps=6, wide=2, shards=10),
+    "thorough": dict(bound=3, actx=3, rnd=[(90, 40), (90, 40), (30, 100)], reps=6, wide=2, shards=10),
 }
 
 
@@ -190,12 +190,11 @@ def run(tier):
 
         def generate_and_replay():
             r = vf.tlc("DiscoChainMC", "gen.cfg", files={"gen.cfg": cfg("DiscoChain_gen.cfg", T["bound"])}, timeout=2400, heap="8g",
-                       workers=min(6, vf.NCPU), coverage=(tier == "thorough"))
+                       workers=min(6, vf.NCPU))
             if r.rc != 0 or r.distinct == 0:
                 raise vf.Infra("model check DiscoChainMC/DiscoChain_gen.cfg failed rc=%s violated=%s\n%s" % (r.rc, r.violated, r.out[-3000:]))
             if not r.traces:
                 raise vf.Infra("generation printed no behaviours")
-            check_vacuity(r)
             behs = r.traces
             bf = os.path.join(work, "beh.json")
             with open(bf, "w") as f:
@@ -204,6 +203,12 @@ def run(tier):
             meta = harness(binary, ["replay", "-in", bf, "-out", tp, "-auto", "-lastonly", "-actx", str(T["actx"]), "-reps", str(T["reps"]),
                                     "-seed", str(seed)], "replay")
             return ("gen:core", tp, behs, meta), mc_entry("core", T["bound"], r)
+
+        # vacuity: TLC -coverage on the smaller bound (coverage slows the big run down a lot)
+        def model_check_coverage():
+            r = vf.tlc_mc("DiscoChainMC", "mc.cfg", files={"mc.cfg": cfg("DiscoChain_mc.cfg", 2)}, timeout=2400, heap="4g", workers=2, coverage=True)
+            check_vacuity(r)
+            return {"profile": "core", "max_entries": 2, "never_evaluated": r.coverage_zero[:20]}
 
         # the systematic universe, model only (thorough)
         def model_check_wide():
@@ -245,6 +250,7 @@ def run(tier):
             f_gen = ex.submit(generate_and_replay)
             f_wide = ex.submit(model_check_wide) if T["wide"] else None
             f_direct = ex.submit(model_check_direct) if tier == "thorough" else None
+            f_cov = ex.submit(model_check_coverage) if tier == "thorough" else None
             f_rnd = [ex.submit(random_run, i, n, length) for i, (n, length) in enumerate(T["rnd"])]
             tr, mc = f_gen.result()
             traces = [tr]
@@ -267,6 +273,8 @@ def run(tier):
                 cov["mc"].append(f_wide.result())
             if f_direct:
                 cov["model_of_code_as_written"] = f_direct.result()
+            if f_cov:
+                cov["tlc_coverage"] = f_cov.result()
         states = sum(m["distinct"] for m in cov["mc"])
         transitions = sum(m["generated"] for m in cov["mc"])
         judge(rows, rejects, verdict, pred_hits)
@@ -311,7 +319,7 @@ def run(tier):
                     "outcome, stored-set size)",
             "event_kinds": kinds, "samples": samples,
             "model_check": cov["mc"], "generation": cov["gen"], "random": cov["random"],
-            "model_of_code_as_written": cov.get("model_of_code_as_written"), "corpus": cov.get("corpus"),
+            "model_of_code_as_written": cov.get("model_of_code_as_written"), "corpus": cov.get("corpus"), "tlc_coverage": cov.get("tlc_coverage"),
             "predicates": sorted(STORE_PREDS | COMPILE_PREDS), "predicate_doc": DOC,
             "rejected_events_by_predicate": pred_hits,
             "known_findings_matched": verdict.known_hit,
